@@ -773,4 +773,21 @@ def qrShape (rows columns : Nat) : Outcome (Option ((Nat × Nat) × (Nat × Nat)
     | .panic k => .panic k
     | .ok _ => .ok (some ((rows, rows), (rows, columns)))
 
+/-! ### API-surface compositions (the stateless cases `@ record_get`, `@ record_mget`) -/
+
+/-- `TensorAccess::from(<RecordTensor of the shape holding its offsets>, order)
+    .try_get_as_record(indexes)`: the tensor is built (`Tensor::from` panics on an invalid shape),
+    accessed in the given order (`TensorAccess::from` panics on names that are not the
+    tensor's), and asked through the checked getter. -/
+def recordGet [Inhabited ν] (shape : Shape ν) (order : List ν) (indexes : List Nat) :
+    Outcome (Option Nat) :=
+  match tensorTryFrom Arith.fixed shape (elements shape) with
+  | .panic k => .panic k
+  | .ok (.error _) => .panic .explicit
+  | .ok (.ok t) =>
+    match accessTryFrom (TView.ofTensor t) order with
+    | .panic k => .panic k
+    | .ok (.error _) => .panic .explicit
+    | .ok (.ok a) => a.get indexes
+
 end EasyMl.Fallible
